@@ -49,3 +49,96 @@ Definition ops_ok : bool :=
   && forallb (fun s => let '(t, o, _) := s in existsb (fun r => let '(_, target, op, _) := r in String.eqb t target && String.eqb o op) kern_ops) op_requests.
 Lemma ops_ok_true : ops_ok = true.
 Proof. vm_compute. reflexivity. Qed.
+
+(* ---- IOTLB messages: what the writer lays out parses back to the same five values, in either layout ---- *)
+From VV Require Import Base.Rt Proofs.CodecProofs.
+From Coq Require Import ZArith Lia ZifyBool ZifyNat ZifyN.
+
+Lemma cput_is_put_at : forall img off v, cput img off v = put_at img off v.
+Proof. reflexivity. Qed.
+
+Definition iotlb_fields_fit (iova size uaddr perm ty : N) : Prop :=
+  iova < 2 ^ 64 /\ size < 2 ^ 64 /\ uaddr < 2 ^ 64 /\ perm < 256 /\ ty < 256.
+
+Lemma mod_small_pow a k : a < 2 ^ k -> a mod 2 ^ k = a.
+Proof. intros H. apply N.mod_small. exact H. Qed.
+
+Definition img6 (a b c d e f : N) : list N :=
+  put_at (put_at (put_at (put_at (put_at (put_at (zeros 72) 0 (le_encode 4 a)) 8 (le_encode 8 b)) 16 (le_encode 8 c)) 24 (le_encode 8 d)) 32 (le_encode 1 e)) 33 (le_encode 1 f).
+
+Lemma img6_reads a b c d e f :
+  a < 2 ^ 32 -> b < 2 ^ 64 -> c < 2 ^ 64 -> d < 2 ^ 64 -> e < 2 ^ 8 -> f < 2 ^ 8 ->
+  List.length (img6 a b c d e f) = 72%nat /\ rd_int (img6 a b c d e f) 0 4 = a /\ rd_int (img6 a b c d e f) 8 8 = b
+  /\ rd_int (img6 a b c d e f) 16 8 = c /\ rd_int (img6 a b c d e f) 24 8 = d /\ rd_int (img6 a b c d e f) 32 1 = e
+  /\ rd_int (img6 a b c d e f) 33 1 = f.
+Proof.
+  intros Ha Hb Hc Hd He Hf. unfold img6.
+  change (2 ^ 32) with (2 ^ (8 * N.of_nat 4)) in Ha. change (2 ^ 64) with (2 ^ (8 * N.of_nat 8)) in Hb, Hc, Hd.
+  change (2 ^ 8) with (2 ^ (8 * N.of_nat 1)) in He, Hf.
+  repeat split; [len | try field_rt ..].
+  repeat (rewrite rd_int_put_other by len). rd_same'. apply le_decode_encode. exact Ha.
+Qed.
+
+Lemma iotlb_roundtrip_ok : forall v2 iova size uaddr perm ty,
+  iotlb_fields_fit iova size uaddr perm ty -> ty <> 0 ->
+  iotlb_parse v2 (iotlb_img v2 iova size uaddr perm ty) = okv (VL [VN iova; VN size; VN uaddr; VN perm; VN ty]).
+Proof.
+  intros v2 iova size uaddr perm ty (Hi & Hs & Hu & Hp & Ht) Hz.
+  unfold iotlb_parse, iotlb_img, image.
+  destruct v2;
+  repeat match goal with
+         | |- context [uoff ?a ?b] => let c := eval vm_compute in (uoff a b) in change (uoff a b) with c
+         | |- context [usize ?a] => let c := eval vm_compute in (usize a) in change (usize a) with c
+         | |- context [uconst ?a] => let c := eval vm_compute in (uconst a) in change (uconst a) with c
+         end;
+  cbn [fold_left Nat.add]; change cput with put_at;
+  change (8 * N.of_nat 8) with 64; change (8 * N.of_nat 4) with 32; change (8 * N.of_nat 1) with 8;
+  rewrite (mod_small_pow iova 64 Hi), (mod_small_pow size 64 Hs), (mod_small_pow uaddr 64 Hu),
+          (mod_small_pow perm 8 Hp), (mod_small_pow ty 8 Ht);
+  fold (zeros 72);
+  repeat match goal with
+         | |- context [le_decode (firstn ?w (skipn ?o ?img))] => change (le_decode (firstn w (skipn o img))) with (rd_int img o w)
+         end;
+  match goal with
+  | |- context [put_at (zeros 72) 0 (le_encode 4 ?k)] =>
+      let kv := eval vm_compute in k in change k with kv;
+      fold (img6 kv iova size uaddr perm ty);
+      pose proof (img6_reads kv iova size uaddr perm ty eq_refl Hi Hs Hu Hp Ht) as (HL & R0 & R1 & R2 & R3 & R4 & R5)
+  end;
+  rewrite HL, R0, R1, R2, R3, R4, R5; cbn [Nat.eqb negb N.eqb Pos.eqb].
+  all: destruct (N.eqb_spec ty 0) as [E|_]; [contradiction|reflexivity].
+Qed.
+
+(* a message whose inner type is 0 is refused, whatever else it carries *)
+Lemma iotlb_empty_refused : forall v2 iova size uaddr perm,
+  iotlb_fields_fit iova size uaddr perm 0 ->
+  iotlb_parse v2 (iotlb_img v2 iova size uaddr perm 0) = VS "InvalidIotlbMsg".
+Proof.
+  intros v2 iova size uaddr perm (Hi & Hs & Hu & Hp & Ht).
+  unfold iotlb_parse, iotlb_img, image.
+  destruct v2;
+  repeat match goal with
+         | |- context [uoff ?a ?b] => let c := eval vm_compute in (uoff a b) in change (uoff a b) with c
+         | |- context [usize ?a] => let c := eval vm_compute in (usize a) in change (usize a) with c
+         | |- context [uconst ?a] => let c := eval vm_compute in (uconst a) in change (uconst a) with c
+         end;
+  cbn [fold_left Nat.add]; change cput with put_at;
+  change (8 * N.of_nat 8) with 64; change (8 * N.of_nat 4) with 32; change (8 * N.of_nat 1) with 8;
+  rewrite (mod_small_pow iova 64 Hi), (mod_small_pow size 64 Hs), (mod_small_pow uaddr 64 Hu),
+          (mod_small_pow perm 8 Hp), (mod_small_pow 0 8 Ht);
+  fold (zeros 72);
+  repeat match goal with
+         | |- context [le_decode (firstn ?w (skipn ?o ?img))] => change (le_decode (firstn w (skipn o img))) with (rd_int img o w)
+         end;
+  match goal with
+  | |- context [put_at (zeros 72) 0 (le_encode 4 ?k)] =>
+      let kv := eval vm_compute in k in change k with kv;
+      fold (img6 kv iova size uaddr perm 0);
+      pose proof (img6_reads kv iova size uaddr perm 0 eq_refl Hi Hs Hu Hp Ht) as (HL & R0 & R1 & R2 & R3 & R4 & R5)
+  end;
+  rewrite HL, R0, R5; reflexivity.
+Qed.
+
+(* the v1 / v2 images differ in the outer type word only: a parser of the other layout refuses them *)
+Lemma iotlb_layouts_distinct : uconst "VHOST_IOTLB_MSG" <> uconst "VHOST_IOTLB_MSG_V2".
+Proof. vm_compute. discriminate. Qed.
